@@ -5,7 +5,8 @@
        [ev |-> "start" | "end", id]   job id begins / ends (a panicking job has no "end" but a "panic")
        [ev |-> "panic", id]           job id panicked
        [ev |-> "handler", id]         the panic handler was called (id = the job named in the panic value, 0 = something else)
-     quiesced (the run waited for quiescence with the pool left open), accepted / ran at quiescence.
+     quiesced (the run waited for quiescence with the pool left open), accepted / ran at quiescence;
+     prealloc (PreAllocWorkerSize argument, 0 = not called).
    The abstract pool: a bag of accepted jobs, at most max running, each leaves the bag exactly once.            *)
 EXTENDS Integers, Sequences, FiniteSets, TLC, Json, IOUtils
 Trace == ndJsonDeserialize(IOEnv.VERIF_TRACE)
@@ -13,7 +14,8 @@ MaxBad == 60
 Ids(E, ev) == {E[j].id : j \in {h \in DOMAIN E : E[h].ev = ev}}
 CountEv(E, ev, id) == Cardinality({j \in DOMAIN E : E[j].ev = ev /\ E[j].id = id})
 Accepted(E) == {E[j].id : j \in {h \in DOMAIN E : E[h].ev = "sched" /\ E[h].r = "ok"}}
-Rejected(E) == {E[j].id : j \in {h \in DOMAIN E : E[h].ev = "sched" /\ E[h].r # "ok"}}
+Unknown(E) == {E[j].id : j \in {h \in DOMAIN E : E[h].ev = "sched" /\ E[h].r = "unknown"}}    \* Invoke() reports nothing: the job may or may not have been accepted
+Rejected(E) == {E[j].id : j \in {h \in DOMAIN E : E[h].ev = "sched" /\ E[h].r \notin {"ok", "unknown"}}}
 Running(E, k) == Cardinality({j \in 1..k : E[j].ev = "start"}) - Cardinality({j \in 1..k : E[j].ev \in {"end", "panic"}})
 Why(r) ==
   LET E == r.events IN
@@ -23,7 +25,8 @@ Why(r) ==
   ELSE IF \E k \in DOMAIN E : Running(E, k) > r.max THEN "more than workerSizeMaximum jobs executing at one instant"
   ELSE IF \E id \in Ids(E, "panic") : CountEv(E, "handler", id) # 1 THEN "a panicking job was not reported exactly once to the panic handler"
   ELSE IF \E id \in Ids(E, "handler") : id \notin Ids(E, "panic") THEN "the panic handler was invoked for something that is not a job's own panic"
-  ELSE IF r.quiesced /\ Accepted(E) # Ids(E, "start") THEN "an accepted job never ran although the pool was left open"
+  ELSE IF r.quiesced /\ ~(Accepted(E) \subseteq Ids(E, "start")) THEN "an accepted job never ran although the pool was left open"
+  ELSE IF ~(Ids(E, "start") \subseteq Accepted(E) \cup Unknown(E)) THEN "a job ran that was never submitted successfully"
   ELSE "ok"
 VARIABLES l, nbad
 Init == l = 1 /\ nbad = 0
